@@ -126,6 +126,23 @@ type PanicSpec struct {
 	Reviewed map[string]string
 	// Min is the minimum number of functions expected (vacuity guard).
 	Min int
+	// Preconds are calls to APIs documented to panic unless a precondition holds.
+	Preconds []Precond
+}
+
+// Precond describes a call whose documented precondition must be established on every path.
+type Precond struct {
+	Callee Callee
+	Invoke string // interface method name (used when Callee is zero)
+	Desc   string
+	Holds  func(s *State, call *ssa.Call) (bool, string)
+}
+
+func (pc Precond) matches(call *ssa.Call) bool {
+	if pc.Invoke != "" {
+		return call.Call.IsInvoke() && call.Call.Method.Name() == pc.Invoke
+	}
+	return IsCallTo(call, pc.Callee)
 }
 
 func lenConstFacts(s *State, base ssa.Value) (lo int64, haveLo bool) {
@@ -190,6 +207,16 @@ func (s *State) FixedLen(v ssa.Value) (int64, bool) {
 		if x.Low == nil && x.High == nil {
 			return s.FixedLen(x.X)
 		}
+		if x.High == nil {
+			if k, ok := s.Canon(x.Low).(*ssa.Const); ok {
+				if lo, ok := constInt(k); ok {
+					if n, ok := s.FixedLen(x.X); ok && n >= lo {
+						return n - lo, true
+					}
+				}
+			}
+			return 0, false
+		}
 		if x.High != nil {
 			if k, ok := s.Canon(x.High).(*ssa.Const); ok {
 				hi, _ := constInt(k)
@@ -208,18 +235,32 @@ func (s *State) FixedLen(v ssa.Value) (int64, bool) {
 		// digest producers of fixed output length (trusted base, listed in evidence)
 		for _, fl := range fixedProducers {
 			if IsCallTo(x, fl.c) {
+				if fl.nilArg >= 0 {
+					if k, ok := s.Canon(x.Call.Args[fl.nilArg]).(*ssa.Const); !ok || k.Value != nil {
+						continue
+					}
+				}
 				return fl.n, true
 			}
 		}
+	case *ssa.TypeAssert:
+		// priv.Public().(ed25519.PublicKey) is 32 bytes
+		if c, ok := s.Canon(x.X).(*ssa.Call); ok && IsCallTo(c, X("crypto/ed25519", "PrivateKey", "Public")) {
+			return 32, true
+		}
+	case *ssa.Convert:
+		return s.FixedLen(x.X)
 	}
 	return 0, false
 }
 
 var fixedProducers = []struct {
-	c Callee
-	n int64
+	c      Callee
+	n      int64
+	nilArg int // index of an argument that must be the nil constant (-1: none)
 }{
-	{X("github.com/zeebo/blake3", "Hasher", "Sum"), 32}, // Sum(nil) on a default-size hasher appends 32 bytes (only when arg is nil; checked at use)
+	{X("github.com/zeebo/blake3", "Hasher", "Sum"), 32, 1}, // Sum(nil) on a default-size hasher yields 32 bytes
+	{X("crypto/ed25519", "", "NewKeyFromSeed"), 64, -1},
 }
 
 // dischargeBounds tries to prove an index/slice instruction safe from the path facts.
@@ -384,6 +425,12 @@ func (c *Check) Totality(spec PanicSpec) {
 					if ins.Pos().IsValid() {
 						sites[ins] = PanicSite{Fn: fn, Instr: ins, Kind: "panic", Expr: "explicit"}
 					}
+				case *ssa.Call:
+					for _, pc := range spec.Preconds {
+						if pc.matches(x) {
+							sites[ins] = PanicSite{Fn: fn, Instr: ins, Kind: "precondition", Expr: pc.Desc}
+						}
+					}
 				}
 			}
 		}
@@ -414,6 +461,19 @@ func (c *Check) Totality(spec PanicSpec) {
 				r := s.Rel(y, ssa.NewConst(constantZero, y.Type()))
 				okk = r != ANY && r&EQ == 0
 				w = "divisor known non-zero on this path"
+				if l, isLen := s.Canon(y).(*ssa.Call); !okk && isLen && BuiltinName(l) == "len" {
+					if n, ok := s.FixedLen(l.Call.Args[0]); ok && n > 0 {
+						okk, w = true, fmt.Sprintf("divisor is the length (%d) of a fixed-length value", n)
+					} else if lb, ok := lenConstFacts(s, l.Call.Args[0]); ok && lb > 0 {
+						okk, w = true, "divisor is a length with a positive lower bound on this path"
+					}
+				}
+			case "precondition":
+				for _, pc := range spec.Preconds {
+					if call := ins.(*ssa.Call); pc.matches(call) {
+						okk, w = pc.Holds(s, call)
+					}
+				}
 			}
 			if !okk {
 				failed[ins] = s.clone()
